@@ -149,9 +149,13 @@ func verifNoReaper(r *sessionRegistry) {}
 
 // verifJSONMarshal stands in for encoding/json.Marshal where the rendered
 // bytes are not the subject: it records the value and returns a fixed body.
-var verifJSONLast interface{}
+var (
+	verifJSONLast interface{}
+	verifJSONAll  []interface{} // every marshalled value, in order
+)
 
 func verifJSONMarshal(v interface{}) ([]byte, error) {
 	verifJSONLast = v
+	verifJSONAll = append(verifJSONAll, v)
 	return []byte("{}"), nil
 }
